@@ -803,6 +803,34 @@ def raising_kinds_sweep(tier, seed=0):
                     break
             if len(fails) >= 4:
                 break
+        # an explicit rerun_exceptions_locally=False wins over the configuration: the failing task runs once, on a worker,
+        # and get() raises (it is not re-run in the scheduler thread)
+        import dask as _dask
+        import threading as _threading
+
+        where_ran = []
+
+        def _boom2():
+            where_ran.append(_threading.current_thread() is _threading.main_thread())
+            raise ValueError("boom")
+
+        for rname, run in (("threaded.get(rerun_exceptions_locally=False) under config True", lambda d: TH.get(d, "c", num_workers=2, rerun_exceptions_locally=False)),):
+            cases += 1
+            where_ran.clear()
+            dsk2 = {"a": Task("a", _boom2), "c": Task("c", lambda v: v, TaskRef("a"))}
+            msg = None
+            try:
+                with _dask.config.set(rerun_exceptions_locally=True):
+                    run(dsk2)
+                msg = f"{rname}: a failing task did not make get() raise"
+            except ValueError:
+                pass
+            except BaseException as e:  # noqa
+                msg = f"{rname}: raised {type(e).__name__}: {e}"
+            if msg is None and where_ran != [False]:
+                msg = f"{rname}: the failing task ran {len(where_ran)} time(s) (in the scheduler thread: {where_ran}); an explicit False must not be overridden by the configuration"
+            if msg:
+                fails.append(rtc.Failure("get_async", {"raises": "ValueError", "failing_task": "leaf", "scheduler": rname}, "ensures", "C04-same-type-same-message", msg))
     finally:
         from dask.callbacks import Callback
         Callback.active = set()
@@ -818,6 +846,10 @@ def _mp_inc(x):
 
 def _mp_add(x, y):
     return x + y
+
+
+def _mp_pair(*a):
+    return a
 
 
 def packing_sweep(tier, seed=0):
@@ -839,7 +871,7 @@ def packing_sweep(tier, seed=0):
     def pack(req):
         return tuple(pack(r) for r in req) if isinstance(req, list) else val[req]
 
-    requests = ["a", "d", ["a"], ["b", "c"], [["b"], "c"], [[], ["d"]], [["a", ["b", ["c"]]], "e"], [["e", "e"], ["a"]], []]
+    requests = ["a", "d", ["a"], ["b", "c"], [["b"], "c"], [[], ["d"]], [["a", ["b", ["c"]]], "e"], [["e", "e"], ["a"]], [], [[]], [[], []], [[], [[]], []]]
     pool = ProcessPoolExecutor(2)
     try:
         runners = [("get_sync", lambda r: get_sync(dsk, r)), ("threaded.get", lambda r: TH.get(dsk, r, num_workers=2)),
@@ -856,6 +888,22 @@ def packing_sweep(tier, seed=0):
                     msg = f"{rname}(dsk, {req!r}) raised {type(e).__name__}: {e}"
                 if msg:
                     fails.append(rtc.Failure("get_async", {"request": req, "scheduler": rname, "entry_point": True}, "ensures", "C01-value", msg))
+                    break
+        # keys that are referenced only from inside a plain (non-task) tuple or set argument are references all the same
+        # (in-process schedulers; dask.multiprocessing.get culls with the legacy dependency finder first and is left out:
+        # observed on the unchanged tree, see DESIGN section 7)
+        dsk_t = {"a": 1, "b": 2, "c": (_mp_pair, ("a", "b")), "m": (_mp_pair, [("a", "b"), "a"]), "t": ("a", "b")}
+        want_t = {"c": ((1, 2),), "m": ([(1, 2), 1],), "t": (1, 2)}
+        for rname, run in (("get_sync", lambda k: get_sync(dsk_t, k)), ("threaded.get", lambda k: TH.get(dsk_t, k, num_workers=2)), ("dask.get", lambda k: dask.get(dsk_t, k))):
+            for k, w in want_t.items():
+                cases += 1
+                try:
+                    got = run(k)
+                    msg = None if got == w else f"{rname}(dsk, {k!r}) = {got!r}, evaluating the graph gives {w!r}"
+                except Exception as e:  # noqa
+                    msg = f"{rname}(dsk, {k!r}) raised {type(e).__name__}: {e}"
+                if msg:
+                    fails.append(rtc.Failure("get_async", {"request": k, "scheduler": rname, "entry_point": True, "graph": "keys inside plain tuples"}, "ensures", "C01-value", msg))
                     break
     finally:
         pool.shutdown(wait=True, cancel_futures=True)
